@@ -607,7 +607,30 @@ def _slist_method(I, ref, c, name, args, kw):
     raise Undecided('symbolic list .%s' % name)
 
 
+def _gset_method(I, ref, c, name, args, kw):
+    x = args[0] if args else None
+    if name == 'add':
+        ents = [(And(p, Not(I.equals(x, k))), k, v) for p, k, v in c.entries]
+        I.ctx.setcell(ref, GSet([e for e in ents if e[0] is not False] + [(True, x, True)]))
+        return None
+    if name in ('discard', 'remove'):
+        pres = Or(*[And(p, I.equals(x, k)) for p, k, v in c.entries])
+        if name == 'remove' and not (I.ctx.decide(pres, 'member') if is_sym(pres) else pres):
+            I.raise_('KeyError')
+        ents = [(And(p, Not(I.equals(x, k))), k, v) for p, k, v in c.entries]
+        I.ctx.setcell(ref, GSet([e for e in ents if e[0] is not False]))
+        return None
+    if name == 'copy':
+        return I.ctx.alloc(GSet(c.entries))
+    if name == 'clear':
+        I.ctx.setcell(ref, GSet([]))
+        return None
+    raise Undecided('set.%s (generic)' % name)
+
+
 def _kvdict_method(I, ref, c, name, args, kw):
+    if isinstance(c, GSet):
+        return _gset_method(I, ref, c, name, args, kw)
     def hit(p, k):
         h = And(p, I.equals(args[0], k))
         return I.ctx.decide(h, 'haskey') if is_sym(h) else h
